@@ -17,7 +17,9 @@ BIG_LENS = [16383, 16384, 16385, 32768, 49152, 65535, 65536, 70000]
 REAL_EDGES = [0.0, 1.0, -1.0, 0.5, 1.5, 2.0, 255.0, 256.0, 65535.0, 0.1, -0.1, 1e-5, 1e-7,
               1e16, 1e300, -1e300, 1e-300, 5e-324, 2.2250738585072014e-308,
               1.7976931348623157e308, 3.141592653589793, 123456789.125, 2.0 ** 60, 2.0 ** -60,
-              float('inf'), float('-inf')]
+              float('inf'), float('-inf')] + \
+    [2.0 ** k for k in (126, 127, 128, 129, -126, -127, -128, -129, -130, 255, 256, 1023, -1022, -1074)] + \
+    [3 * 2.0 ** 127, -2.0 ** 127, 255 * 2.0 ** 120, 65535 * 2.0 ** -144, 5 * 2.0 ** -131]
 
 
 class ValCfg(object):
